@@ -3,5 +3,5 @@ EXTENDS RateLimit
 P(c, r, d) == [cap |-> c, r |-> r, d |-> d]
 \* r/d tokens per 4-second tick:  1/1 = 0.25/s ; 1/2 = 0.125/s ; 1/256 = 1/1024 per s (capacity/rate = 2048 s > idle age)
 MCParams == { P(1, 1, 1), P(2, 1, 2), P(2, 1, 256), P(3, 2, 1) }
-RPParams == { P(2, 1, 2), P(2, 1, 256) }
+RPParams == { P(2, 1, 2), P(2, 1, 256), P(2, 0, 1) }
 ====
